@@ -17,3 +17,7 @@ if "--log" in sys.argv:
     print("outcome", r1.outcome, "viol", [v["msg"][:300] for v in r1.viol])
 if "--dump" in sys.argv:
     json.dump([list(map(str, e)) for e in r1.sim.log], open(sys.argv[sys.argv.index("--dump") + 1], "w"))
+print("BLOCKED", r1.sim.final_blocked)
+if "--stacks" in sys.argv:
+    # stacks of live threads at the end are only captured for abnormal ends; re-run capturing always
+    pass
